@@ -23,6 +23,19 @@ def languages(thorough):
     return L
 
 
+def simulated(thorough):
+    """Random deep derivations of the same machine (tlc -simulate, seeded by VERIF_SEED)."""
+    n = 'num=%d' % (3000 if thorough else 400)
+    return [
+        ('expr_sim', dict(Start=0, MaxTok=24, Names=['a', 'b'], Fields=['f', 'g'], Nums=['1', '2'], CallFuns=['abs', 'len'],
+                          Consts=['PI', 'E', 'INF'], Vars=['@v', '@w'], SetLens=[1, 2, 3]), n),
+        ('pred_sim', dict(Start=26, MaxTok=26, Names=['a', 'b'], Fields=['f'], Nums=['1', '0'], CallFuns=['abs', 'sum'], SetLens=[1, 2]), n),
+        ('prop_sim', dict(Start=30, MaxTok=34, PredPool=None, Channels=['t', 'u', 'w'], AliasNames=['A', 'B'], Times=['100', '0', '3'],
+                          DisjLens=[2, 3], Names=['a'], Fields=['f'], Consts=[], Strs=[], CallFuns=['abs'], SetLens=[1],
+                          IfOps=['implies'], MulOps=['*'], PowOps=[], RangeL=['['], RangeR=[']', ']!']), n),
+    ]
+
+
 def sentences(thorough=None):
     """[(lang name, entry, sentence)] + accumulated TLC stats."""
     thorough = (tier() == 'thorough') if thorough is None else thorough
@@ -34,6 +47,12 @@ def sentences(thorough=None):
             sents, r = grammar.enumerate_language(params)
             stats['generated'] += r['generated']
             stats['distinct'] += r['distinct']
+            for s in sents:
+                out.append((name, ENTRY[params['Start']], s))
+        from harness.common import seed
+        for name, params, sim in simulated(thorough):
+            sents, r = grammar.enumerate_language(params, simulate=sim, seed=seed() + 1)
+            stats['simulated'] = stats.get('simulated', 0) + len(sents)
             for s in sents:
                 out.append((name, ENTRY[params['Start']], s))
         _CACHE[key] = (out, stats)
